@@ -260,8 +260,12 @@ func (p c13) run(c *core.C, t *core.T, cs c13Case) {
 	for i := len(want); ok && i < len(got); i++ {
 		ok = got[i] == want[len(want)-1]
 	}
-	if !ok {
-		c.Failf("header reads at offsets %v, the archive layout requires %v", got, want)
+	// evidence only: how the implementation reads headers is its own business (a benign
+	// refactoring may read them differently); wrong offsets show up as wrong members or bytes
+	if ok {
+		c.Cover("header-reads-at-the-model-offsets")
+	} else {
+		c.Cover("header-reads-elsewhere(not judged)")
 	}
 	switch n := len(cs.Members); {
 	case n == 0:
